@@ -135,6 +135,8 @@ pub fn run(req: &mut J) -> Result<J, String> {
         }
         "inventory" => crate::inv::run(req),
         "config" => crate::cfg::run(req),
+        "crash" => crate::inv::run_crash(req),
+        "py_inventory" => crate::py::run(req),
         _ => Err(format!("unknown op {op}")),
     }
 }
